@@ -152,13 +152,12 @@ pub open spec fn requirements_met(signed: Seq<Seq<u8>>, h: QMap, always: Seq<Seq
     &&& forall|i: int| 0 <= i < ifreq.len() ==> (h.contains_key(lower(#[trigger] ifreq[i])) ==> signed.contains(lower(ifreq[i])))
     &&& forall|i: int, k: Seq<u8>| 0 <= i < prefixes.len() && #[trigger] h.contains_key(k) && lower(#[trigger] prefixes[i]).is_prefix_of(k) ==> signed.contains(k)
 }
+/// requirements_met looks at the signed list only through membership
+pub proof fn lemma_requirements_same_names(s1: Seq<Seq<u8>>, s2: Seq<Seq<u8>>, h: QMap, always: Seq<Seq<u8>>, ifreq: Seq<Seq<u8>>, prefixes: Seq<Seq<u8>>)
+    requires forall|x: Seq<u8>| s1.contains(x) <==> s2.contains(x)
+    ensures requirements_met(s1, h, always, ifreq, prefixes) == requirements_met(s2, h, always, ifreq, prefixes)
+{}
 
-/// `trim_ascii` / `trim_ascii_start` / `trim_ascii_end` (canonical.rs, copied from std, slice patterns are outside Verus's subset):
-/// NOT extracted; contract assumed here and checked by the bounded Kani harness trim_ascii_bounded (inputs up to 6 bytes).
-#[verifier::external_body]
-pub fn trim_ascii(bytes: &[u8]) -> (r: &[u8])
-    ensures r@ == trim_ws(bytes@)
-{ unimplemented!() }
 
 impl AuthParams {
     pub open spec fn signed(&self) -> Seq<Seq<u8>> { vals_bytes(self.signed_headers@) }
@@ -218,6 +217,11 @@ impl CanonicalRequest {
         ||| self.header_date() is None
     }
 
+}
+// (own module: one solver context per module keeps this function's queries small and independent of the rest of the unit)
+pub mod gaph_m {
+use super::*;
+impl CanonicalRequest {
 //@ fn canonical.rs impl CanonicalRequest :: get_auth_parameters_from_auth_header
 //@ hideutf8
 //@ props C08 C19 C13 C02 C17
@@ -245,7 +249,6 @@ impl CanonicalRequest {
 //@ bodystart
     hide(bmap);
     hide(hmap);
-    hide(qmap);
     broadcast use axiom_contains_str_key, axiom_maps_str_key_to_value, axiom_string_of_str_bytes, axiom_string_key_model;
     proof {
         lemma_lit_X_AMZ_DATE_LOWER(); lemma_lit_DATE(); lemma_lit_X_AMZ_SECURITY_TOKEN_LOWER(); lemma_lit_CREDENTIAL(); lemma_lit_SIGNATURE(); lemma_lit_SIGNED_HEADERS(); lemma_lit_AWS4_HMAC_SHA256_BYTES();
@@ -302,6 +305,9 @@ impl CanonicalRequest {
         assert(is_sorted_names(vals_bytes(signed_headers@), Seq::new(split(m[K_SIGNED_HEADERS()], 0x3b).len(), |i: int| str_bytes(latin1(split(m[K_SIGNED_HEADERS()], 0x3b)[i])))));
     }
 //@ end
+}
+} // mod gaph_m
+impl CanonicalRequest {
     /// the first value of a query parameter (C19: "the first value of a repeated X-Amz-* query parameter"), still percent-encoded
     pub open spec fn first_query(&self, name: Seq<u8>) -> Option<Seq<u8>> {
         if self.qview().contains_key(name) && self.qview()[name].len() > 0 { Some(self.qview()[name][0]) } else { None }
@@ -344,6 +350,11 @@ impl CanonicalRequest {
         &&& p.builder.request_timestamp is None && p.builder.canonical_request_sha256 is None
     }
 
+}
+// (own module: one solver context per module keeps this function's queries small and independent of the rest of the unit)
+pub mod gapq_m {
+use super::*;
+impl CanonicalRequest {
 //@ fn canonical.rs impl CanonicalRequest :: get_auth_parameters_from_query_parameters
 //@ hideutf8
 //@ props C08 C19 C13 C02 C17
@@ -381,6 +392,9 @@ impl CanonicalRequest {
         assert(is_sorted_names(vals_bytes(signed_headers@), split(str_bytes(latin1(self.first_query_decoded(Q_SIGNED_HEADERS()))), 0x3b)));
     }
 //@ end
+}
+} // mod gapq_m
+impl CanonicalRequest {
     pub open spec fn first_auth_header(&self) -> Seq<u8> { self.hview()[H_AUTHORIZATION()][0] }
     pub open spec fn first_query_alg(&self) -> Seq<u8> { self.qview()[Q_ALGORITHM()][0] }
     pub proof fn lemma_hview_key(&self, k: Seq<u8>)
@@ -412,6 +426,39 @@ impl CanonicalRequest {
         ||| (!ha && qa && self.first_query_alg() == ALGO() && !self.query_carrier_missing() && self.query_carrier_ok(p))
     }
 
+    /// C02 / C05 (completeness of rules 5-8): some extraction by the selected carrier meets every signed-header requirement
+    pub open spec fn acceptable_params(&self, always: Seq<Seq<u8>>, ifreq: Seq<Seq<u8>>, prefixes: Seq<Seq<u8>>) -> bool {
+        exists|p: AuthParams| #[trigger] self.carrier_selected(p) && requirements_met(p.signed(), self.hview(), always, ifreq, prefixes)
+    }
+    /// whatever the selected carrier yields, it yields the same set of signed names
+    pub proof fn lemma_selected_same_names(&self, p: AuthParams, q: AuthParams)
+        requires self.carrier_selected(p), self.carrier_selected(q)
+        ensures forall|x: Seq<u8>| p.signed().contains(x) <==> q.signed().contains(x)
+    {
+        broadcast use vstd::seq_lib::group_to_multiset_ensures;
+        assert(p.signed().to_multiset() == q.signed().to_multiset());
+        assert forall|x: Seq<u8>| p.signed().contains(x) <==> q.signed().contains(x) by {
+            assert(p.signed().contains(x) <==> p.signed().to_multiset().count(x) > 0);
+            assert(q.signed().contains(x) <==> q.signed().to_multiset().count(x) > 0);
+        }
+    }
+    /// hence a refusal established for the extraction at hand holds for every extraction
+    pub proof fn lemma_not_acceptable(&self, params: AuthParams, always: Seq<Seq<u8>>, ifreq: Seq<Seq<u8>>, prefixes: Seq<Seq<u8>>)
+        requires self.carrier_selected(params), !requirements_met(params.signed(), self.hview(), always, ifreq, prefixes)
+        ensures !self.acceptable_params(always, ifreq, prefixes)
+    {
+        assert forall|p: AuthParams| #[trigger] self.carrier_selected(p) implies !requirements_met(p.signed(), self.hview(), always, ifreq, prefixes) by {
+            self.lemma_selected_same_names(p, params);
+            lemma_requirements_same_names(p.signed(), params.signed(), self.hview(), always, ifreq, prefixes);
+        }
+    }
+
+}
+// (own module: Verus builds one solver context per module; this function's five loop queries stay small and stable when the rest of the unit's
+//  definitions are not in scope)
+pub mod gap_m {
+use super::*;
+impl CanonicalRequest {
 //@ fn canonical.rs impl CanonicalRequest :: get_auth_parameters
 //@ hideutf8
 //@ attr #[verifier::rlimit(40)] // five loop queries in a large context: slack so that an unrelated edit elsewhere in the unit cannot tip it over the default limit
@@ -450,6 +497,8 @@ impl CanonicalRequest {
         r is Ok ==> requirements_met(r->Ok_0.signed(), self.hview(), signed_header_requirements.always_spec(),
             signed_header_requirements.if_in_request_spec(), signed_header_requirements.prefixes_spec()), //# C05 name=accepted_only_if_every_required_header_is_signed
         r is Ok ==> self.carrier_selected(r->Ok_0), //# C19 name=exactly_one_carrier_selected
+        self.acceptable_params(signed_header_requirements.always_spec(), signed_header_requirements.if_in_request_spec(),
+            signed_header_requirements.prefixes_spec()) ==> r is Ok, //# C02 C05 name=request_meeting_every_requirement_passes_rules_5_to_8
         r is Err ==> (r->Err_0 is SignatureDoesNotMatch || r->Err_0 is MissingAuthenticationToken || r->Err_0 is IncompleteSignature), //# C13 name=rules_5_to_8_error_kinds
 //@ bodystart
     hide(CanonicalRequest::header_carrier_ok);
@@ -468,13 +517,42 @@ impl CanonicalRequest {
     let ghost hv = self.hview();
     proof { assert(self.carrier_selected(params)); }
 //@ loop 1 iter it1
+        invariant_except_break
+            !found_host,
         invariant
             signed == vals_bytes(params.signed_headers@),
             it1.seq().len() == params.signed_headers@.len(),
             forall|i: int| 0 <= i < params.signed_headers@.len() ==> *(#[trigger] it1.seq()[i]) == params.signed_headers@[i],
             found_host ==> signed.contains(HOST()) || signed.contains(AUTHORITY()),
+            !found_host ==> forall|j: int| 0 <= j < it1.index@ ==> signed[j] != HOST() && signed[j] != AUTHORITY(),
+        ensures
+            !found_host ==> !(signed.contains(HOST()) || signed.contains(AUTHORITY())), //# C02 C05 name=host_refusal_only_when_neither_is_signed
 //@ before 1 `if header == "host" || header == ":authority" {`
             proof { lemma_lit_host(); lemma_lit_authority(); assert(str_bytes(header@) == signed[it1.index@]); }
+//@ before 1 `return Err(SignatureError::SignatureDoesNotMatch(Some(MSG_HOST_AUTHORITY_MUST_BE_SIGNED.to_string())));`
+            proof {
+                self.lemma_not_acceptable(params, signed_header_requirements.always_spec(), signed_header_requirements.if_in_request_spec(), signed_header_requirements.prefixes_spec());
+            }
+//@ before 1 `return Err(SignatureError::SignatureDoesNotMatch(Some(format!(`
+                proof {
+                    assert(!signed.contains(lower(signed_header_requirements.always_spec()[it2.index@])));
+                    self.lemma_not_acceptable(params, signed_header_requirements.always_spec(), signed_header_requirements.if_in_request_spec(), signed_header_requirements.prefixes_spec());
+                }
+//@ before 2 `return Err(SignatureError::SignatureDoesNotMatch(Some(format!(`
+                proof {
+                    assert(hv.contains_key(lower(signed_header_requirements.if_in_request_spec()[it3.index@])) && !signed.contains(lower(signed_header_requirements.if_in_request_spec()[it3.index@])));
+                    self.lemma_not_acceptable(params, signed_header_requirements.always_spec(), signed_header_requirements.if_in_request_spec(), signed_header_requirements.prefixes_spec());
+                }
+//@ before 3 `return Err(SignatureError::SignatureDoesNotMatch(Some(format!(`
+                    proof {
+                        let k = str_bytes(http_header@);
+                        lemma_hmap_contains(self.headers@, *http_header);
+                        lemma_keys_exact(it5.seq(), self.headers@.dom());
+                        assert(self.headers@.contains_key(*it5.seq()[it5.index@]));
+                        assert(hv.contains_key(k) && pfx.is_prefix_of(k) && !signed.contains(k));
+                        assert(hv.contains_key(k) && lower(signed_header_requirements.prefixes_spec()[it4.index@]).is_prefix_of(k));
+                        self.lemma_not_acceptable(params, signed_header_requirements.always_spec(), signed_header_requirements.if_in_request_spec(), signed_header_requirements.prefixes_spec());
+                    }
 //@ loop 2 iter it2
         invariant
             self.carrier_selected(params),
@@ -510,6 +588,8 @@ impl CanonicalRequest {
                     signed == vals_bytes(params.signed_headers@), hv == self.hview(),
                     pfx == str_bytes(header_lower@),
                     forall|k: String| self.headers@.contains_key(k) ==> exists|j: int| 0 <= j < it5.seq().len() && *(#[trigger] it5.seq()[j]) == k,
+                    it5.seq().no_duplicates(), it5.seq().len() == self.headers@.len(),
+                    0 <= it4.index@ < signed_header_requirements.prefixes_spec().len(), pfx == lower(signed_header_requirements.prefixes_spec()[it4.index@]),
                     forall|j: int| 0 <= j < it5.index@ ==> (pfx.is_prefix_of(str_bytes((#[trigger] it5.seq()[j])@)) ==> signed.contains(str_bytes(it5.seq()[j]@))),
 //@ after 1 `http_header<NL>                    ))));<NL>                }<NL>            }`
             proof {
@@ -520,6 +600,9 @@ impl CanonicalRequest {
                 }
             }
 //@ end
+}
+} // mod gap_m
+impl CanonicalRequest {
 
 //@ fn canonical.rs impl CanonicalRequest :: get_authenticator_from_auth_parameters
 //@ hideutf8
@@ -561,6 +644,19 @@ impl CanonicalRequest {
         }
     }
 
+    /// the timestamp text the selected carrier supplies (header carrier: first X-Amz-Date, else first Date; query carrier: decoded X-Amz-Date)
+    pub open spec fn carrier_timestamp(&self) -> Seq<char> {
+        if self.hview().contains_key(H_AUTHORIZATION()) { latin1(self.header_date()->Some_0) } else { latin1(self.first_query_decoded(Q_DATE())) }
+    }
+    pub proof fn lemma_selected_timestamp(&self, p: AuthParams)
+        requires self.carrier_selected(p)
+        ensures p.timestamp_str@ == self.carrier_timestamp()
+    {}
+    /// C02 (completeness of rules 5-9): the selected carrier's extraction meets every requirement and its timestamp is ISO-8601
+    pub open spec fn acceptable_authenticator(&self, always: Seq<Seq<u8>>, ifreq: Seq<Seq<u8>>, prefixes: Seq<Seq<u8>>) -> bool {
+        self.acceptable_params(always, ifreq, prefixes) && iso_instant(str_bytes(self.carrier_timestamp())) is Some
+    }
+
 //@ fn canonical.rs impl CanonicalRequest :: get_authenticator
 //@ hideutf8
 //@ props C08 C01 C05 C13 C16 C19 C17
@@ -575,12 +671,14 @@ impl CanonicalRequest {
         r is Ok ==> self.authenticator_ok(signed_header_requirements.always_spec(), signed_header_requirements.if_in_request_spec(),
             signed_header_requirements.prefixes_spec(), r->Ok_0), //# C01 C05 C16 C19 name=authenticator_built_from_the_selected_carrier
         r is Err ==> (r->Err_0 is SignatureDoesNotMatch || r->Err_0 is MissingAuthenticationToken || r->Err_0 is IncompleteSignature), //# C13 name=rules_5_to_9_error_kinds
+        self.acceptable_authenticator(signed_header_requirements.always_spec(), signed_header_requirements.if_in_request_spec(),
+            signed_header_requirements.prefixes_spec()) ==> r is Ok, //# C02 name=request_passing_rules_5_to_9_gets_an_authenticator
 //@ bodystart
     hide(CanonicalRequest::carrier_selected);
     hide(requirements_met);
     hide(CanonicalRequest::is_creq);
 //@ before 1 `self.get_authenticator_from_auth_parameters(auth_params)`
     let ghost p0 = auth_params;
-    proof { self.lemma_carrier_selected_builder(auth_params); }
+    proof { self.lemma_carrier_selected_builder(auth_params); self.lemma_selected_timestamp(auth_params); }
 //@ end
 }
